@@ -289,7 +289,7 @@ Section Resolve.
   Proof.
     intros HI Hs. destruct l as [i|j|i j|]; cbn [wresolve].
     - eexists. split; [reflexivity|]. intros r Hr. destruct (decide (i < nslots)%nat) as [Hlt|]; [|discriminate].
-      injection Hr as <-. split; [intros _; cbn; rewrite (proj2 (sv_lens _ _ _ _ _ HI)); exact Hlt|].
+      injection Hr as <-. split; [intros _; cbn; rewrite (proj1 (proj2 (sv_lens _ _ _ _ _ HI))); exact Hlt|].
       intros w Hw. cbn in Hw. destruct (wslots m !! i) as [[w'|]|] eqn:Es; cbn in Hw; try discriminate. injection Hw as ->.
       split; [eapply sv_wslots; eauto|]. intros o ->. rewrite wrefs_unfold.
       assert (0 < cnt_w o (wslots m))%nat by (apply cnt_w_pos; eauto). lia.
